@@ -1139,6 +1139,19 @@ def af_unique(ar, return_index=False, return_inverse=False, return_counts=False,
     return res
 
 
+def af_require(a, dtype=None, requirements=None, **kw):
+    reqs = set()
+    if requirements:
+        reqs = set(r.upper()[0] for r in ([requirements] if isinstance(requirements, str) else requirements))
+    a = a if isinstance(a, np.ndarray) else wrap(np.asarray(_as_objarr(obj(a))))
+    k = _dtype_kind(dtype)
+    if k is not None and kind_of(a) != k:
+        return _to_kind(a, k)
+    if ('W' in reqs and not a.flags.writeable) or 'O' in reqs:
+        return wrap(a.view(np.ndarray).copy())
+    return a
+
+
 def af_shape(a):
     return np.asarray(_as_objarr(a)).shape
 
@@ -1260,7 +1273,7 @@ AF = {
     np.round: af_round, np.around: af_round, np.sort: af_sort,
     np.shape: af_shape, np.size: af_size, np.ndim: af_ndim, np.copy: af_copy,
     np.linspace: af_linspace, np.meshgrid: af_meshgrid, np.array_equal: af_array_equal,
-    np.diff: af_diff, np.cumsum: af_cumsum, np.clip: af_clip, np.searchsorted: af_searchsorted, np.unique: af_unique,
+    np.diff: af_diff, np.cumsum: af_cumsum, np.clip: af_clip, np.searchsorted: af_searchsorted, np.unique: af_unique, np.require: af_require,
 }
 
 # numpy functions whose python implementation only does structural work and
@@ -1371,6 +1384,11 @@ class Proxy(types.ModuleType):
                 return a
             return SymReal(a.v + e if up else a.v - e, Or_(a.nan, b.nan), FALSE)
         return np.nextafter(a, b)
+
+    def require(self, a, dtype=None, requirements=None, **kw):
+        if has_sym(a):
+            return af_require(a, dtype=dtype, requirements=requirements, **kw)
+        return np.require(a, dtype=dtype, requirements=requirements, **kw)
 
     def broadcast_arrays(self, *args, **kw):
         if active():
@@ -1619,6 +1637,14 @@ Sym.any = lambda self, *a, **kw: sbool(self)
 Sym.all = lambda self, *a, **kw: sbool(self)
 Sym.squeeze = lambda self, *a, **kw: self
 Sym.strides = ()
+
+
+class _ScalarFlags:
+    writeable = False
+    c_contiguous = f_contiguous = owndata = True
+
+
+Sym.flags = _ScalarFlags()
 
 
 class ForkIndexArray(np.ndarray):
